@@ -34,26 +34,31 @@ CLAIMS = {
     'C01': _p("Every obligation (function x input shape x clause) of len/bool/indexing/slicing with any start/stop/step, + and "
               "its reflected form is proved for all lengths, contents, indices and all four classes in every store state "
               "(in-memory, buffer-backed with a shorter logical length), including result class and operands unchanged. "
-              "Repetition (*) and iteration contain loops and are served by loop-invariant obligations where available, "
-              "otherwise by the bounded stand-in (reported as such)."),
+              "Repetition (*, loop invariant of _imul) and iteration (uniform-map rule) are proved as well. The operators as client "
+              "code writes them (a + b over every ordered pair of classes, contracts/_client_code.py) are proved with Python's "
+              "dispatch rule -- incl. the priority of a subclass's reflected method -- executed by the interpreter."),
     'C03': _p("Each mutator's real body is proved equal to its sequence-level specification (content, return value, frame "
               "outside the addressed range, rollback on every raising path, stream position) for all lengths/contents/"
               "positions, for BitArray and BitStream and every operand kind incl. aliasing (bs is self). replace/byteswap/"
               "iterable positions contain loops: invariant obligations or bounded stand-in."),
     'C06': _p("0 <= pos <= len and the documented position effect are post-conditions of every stream operation under "
               "contract (read/peek of every fixed dtype with symbolic length, setters, bytealign, mutators with BitStream "
-              "selfs, operators, slicing), proved per operation; the induction over operation histories is the standard "
-              "meta-argument. Variable-length codes and list reads: see C10 / bounded stand-in."),
+              "selfs, operators, slicing, copies, the constructors' pos argument), proved per operation; ue/se reads, readlist and "
+              "peeklist (concrete format skeletons, symbolic lengths and counts incl. negative) and readto (non-aligned) are proved "
+              "too; the induction over operation histories is the standard meta-argument. Byte-aligned readto: bounded."),
     'C07': _p("find/rfind are proved against the brute-force definition (sound, complete, extremal, window, ValueError cases) "
               "with bitarray.find assumed to be that definition; startswith/endswith/count/all/any proved for all inputs. "
-              "Byte-aligned search, findall, split, cut and replace go through generators/loops: bounded stand-in on the "
-              "real functions unless a sequence contract discharges them (evidence lists which).", category='other'),
+              "`in` is proved (any position, whatever options.bytealigned). Byte-aligned search, findall, split, cut and replace go "
+              "through generators/loops: bounded stand-in on the real functions, in both bit numberings, on periodic data with "
+              "overlapping (byte-)aligned matches and on data longer than the 8192-bit chunks of the reverse searches.", category='other'),
     'C08': _p("Representation independence: every BitStore primitive and every Bits-level operation under contract is proved "
               "against a specification over the *logical* content for each representation state, and the window constructors "
-              "(bytes, bitarray, BytesIO, file/mmap) are proved to yield exactly source[offset:offset+length]."),
+              "(bytes, bitarray, BytesIO, file/mmap) are proved to yield exactly source[offset:offset+length], in both bit "
+              "numberings. Little-endian bitarray sources are outside the (big-endian) bitarray model: bounded native sweep."),
     'C13': _p("__eq__/__ne__ are proved to be equality of (length, bits) for all class pairs, store states and positions, False "
               "for non-promotable types; __hash__ is proved to be a function of the bits only in both the <=2000 and the "
-              ">2000-bit branch (so equal values hash equal); ordering returns NotImplemented."),
+              ">2000-bit branch (so equal values hash equal); a == b as client code over every ordered class pair is proved with "
+              "Python's dispatch. Operand kinds outside the model (memoryviews, array.array, iterables, BytesIO): bounded native sweep."),
     'C15': _p("For symbolic value and length: int2bitstore/intle2bitstore and the six integer setters succeed iff the value is "
               "in range and the length allowed (exactly n bits) and raise CreationError otherwise, the OverflowError re-raise "
               "is unreachable; Dtype lengths; source windows beyond the data are rejected. String/token routes are bounded."),
@@ -70,7 +75,10 @@ CLAIMS.update({
               "which one is mutable; no mutable object on an immutable-flagged or cached store; no live buffer handed out or "
               "adopted) is evaluated on every path of every contract, and the derivation routes (constructors from every source "
               "kind, bits=, copies, tobitarray, fromstring) have their own contracts. Immutable receivers: content unchanged by "
-              "every method under contract. The induction over histories is the standard meta-argument.",
+              "every method under contract. Further generic clauses: a store that outlives the call (module constant, memoised "
+              "value) is never held by a mutable object or returned unflagged; a memoised BitStore result is flagged immutable; "
+              "identity of returned stores. Creation routes of every registered dtype into mutable objects: bounded native sweep. "
+              "The induction over histories is the standard meta-argument.",
               technique='contract-based deductive verification with ghost ownership state (identity of stores and buffers) on the '
                         'symbolically executed real code; identity facts replayed on real objects'),
     'C09': _p("Purity of every memoised function is a frame (read-effect) contract: reads*(f) over the AST call graph contains no "
@@ -88,7 +96,10 @@ CLAIMS.update({
               "equal to rev . msb0-SPEC . rev on all operands for every step sign, index and range (slicing, item deletion, "
               "insert/overwrite/append/prepend/reverse/set/invert, startswith/endswith); offset_slice_indices_lsb0 satisfies the "
               "mirror law on (first, count, step) for symbolic step; whole-value operations (==, hash, len, tobytes, shifts, +, &) "
-              "are proved mode-independent. Ranged rotations, find family and reads in lsb0 are load-sensitive/bounded."),
+              "and the whole-value getters/setters and source windows are proved mode-independent; a slice step of 0 raises ValueError in "
+              "both modes. Ranged rotations, the find family (brute-force mirror sweep incl. byte alignment on the lsb0 position and "
+              "> 8192-bit data) and reads in lsb0 are load-sensitive/bounded. lsb0 split is not claimed (the repository's own test "
+              "pins a non-mirror behaviour and the property does not list split)."),
 })
 
 CLAIMS.update({
@@ -102,13 +113,14 @@ CLAIMS.update({
               "modes) is compared, exhaustively, with an exact-rational model written from the format definitions and the "
               "documented overflow rules; the real encoders/getters are run on every binary16 value under both option settings "
               "and on arguments beyond binary16 (clamps). With struct.pack('>e') assumed IEEE this covers every float64 input. "
-              "e8m0/bfloat: all codes; mxint and scale: bounded.", category='other',
+              "e8m0/bfloat: all codes; mxint, scale and the agreement of the string/pack/build routes across mxfp_overflow switches: bounded.", category='other',
               technique='complete enumeration of the finite tables against an exact-rational specification (decision by exhaustion), '
                         'bounded differential for mxint/scale'),
     'C14': _p("len, item get/set/delete, append, insert and pop are proved as list-of-chunks equations over data for symbolic item "
               "width, including byte-multiplier dtypes, negative/out-of-range indices, trailing bits untouched and rollback on a "
-              "value that does not fit. Slices with a step, reverse, tolist/iteration and the element-wise operators contain "
-              "loops: bounded stand-in.", category='other'),
+              "value that does not fit. Slices with a step, slice assignment (from lists and from Arrays with trailing bits of "
+              "their own), reverse, tolist/iteration and the element-wise operators contain loops: bounded list-model differential "
+              "(each case replayable from its seed).", category='other'),
     'C18': _p("Replacement tables, PACK_CODE_SIZE, parse_single_struct_token and structparser are enumerated completely against "
               "struct.calcsize for every code x prefix x count <= 12; little-endian = byte-reversed big-endian and the native "
               "aliases are contracts proved in C02/C15; value compatibility with struct/array is a bounded differential.",
@@ -127,7 +139,8 @@ CLAIMS.update({
     'C20': _p("Exception classes and post-state validity are clauses of every public contract: the check re-runs the contracts of the "
               "public mutators, stream operations, constructors/sources, value setters, operators and printing (each raising path "
               "has a documented class, rollback and pos validity proved). Entry points taking format strings and those not under "
-              "contract are covered by a bounded API fuzzer.", category='other'),
+              "contract are covered by a bounded API fuzzer and by replayable random *sequences* of operations on one object in both "
+              "bit numberings that also watch every immutable object passed in earlier.", category='other'),
 })
 
 NOT_APPLICABLE = {}
